@@ -7,6 +7,7 @@ import (
 	"go/token"
 	"go/types"
 	"os"
+	"reflect"
 
 	"sialint/internal/cfgx"
 )
@@ -256,6 +257,11 @@ func (x *expander) blockC(list []ast.Stmt, depth int, fnBody bool, cont ast.Stmt
 func (x *expander) stmt(s ast.Stmt, next ast.Stmt, depth int) []ast.Stmt {
 	var pre []ast.Stmt
 	tail := x.tail
+	if repl := x.devirt(s, depth); repl != nil {
+		x.tail = tail
+		return x.blockC(repl, depth, false, next)
+	}
+	x.accessors(s, depth)
 	x.tail = false
 	switch t := s.(type) {
 	case *ast.DeferStmt:
@@ -496,6 +502,9 @@ func (x *expander) inlinableStmt(s ast.Stmt, depth int) bool {
 		return false
 	}
 	if _, ok := x.target(call, depth); ok {
+		return true
+	}
+	if _, impls := x.closedIface(call, depth); len(impls) > 0 {
 		return true
 	}
 	for _, a := range call.Args {
@@ -2737,4 +2746,333 @@ func (x *expander) cmpCallToInit(ifs *ast.IfStmt, depth int) bool {
 	*slot = use
 	x.rewrote = true
 	return true
+}
+
+// closedIface: call is a method call through an interface declared in the package under analysis that has an
+// unexported method — only types of this package can implement it — and at most four of them do, each with a
+// method body that would be expanded. It returns the receiver operand and those types.
+func (x *expander) closedIface(call *ast.CallExpr, depth int) (ast.Expr, []types.Type) {
+	if depth >= x.opt.Depth || call.Ellipsis.IsValid() {
+		return nil, nil
+	}
+	sel, ok := ast.Unparen(call.Fun).(*ast.SelectorExpr)
+	if !ok {
+		return nil, nil
+	}
+	m, ok := x.info.Uses[sel.Sel].(*types.Func)
+	if !ok || m.Pkg() == nil || m.Pkg() != x.top.Pkg.Types {
+		return nil, nil
+	}
+	recv := m.Type().(*types.Signature).Recv()
+	if recv == nil {
+		return nil, nil
+	}
+	it, ok := recv.Type().Underlying().(*types.Interface)
+	if !ok {
+		return nil, nil
+	}
+	if _, named := x.info.TypeOf(sel.X).(*types.Named); !named || !isPure(x.info, sel.X) {
+		return nil, nil
+	}
+	closed := false
+	for i := 0; i < it.NumMethods(); i++ {
+		if !it.Method(i).Exported() {
+			closed = true
+		}
+	}
+	if !closed {
+		return nil, nil
+	}
+	var impls []types.Type
+	scope := x.top.Pkg.Types.Scope()
+	for _, name := range scope.Names() {
+		tn, ok := scope.Lookup(name).(*types.TypeName)
+		if !ok || tn.IsAlias() {
+			continue
+		}
+		t := tn.Type()
+		if _, isIface := t.Underlying().(*types.Interface); isIface {
+			continue
+		}
+		var impl types.Type
+		switch {
+		case types.Implements(t, it):
+			impl = t
+		case types.Implements(types.NewPointer(t), it):
+			impl = types.NewPointer(t)
+		default:
+			continue
+		}
+		// the concrete method must be a declared function of the package that is not being expanded already
+		ms := types.NewMethodSet(impl).Lookup(m.Pkg(), m.Name())
+		if ms == nil {
+			return nil, nil
+		}
+		cm, _ := ms.Obj().(*types.Func)
+		if cm == nil || x.p.byObj[cm.Origin()] == nil || len(ms.Index()) != 1 {
+			return nil, nil
+		}
+		if x.opt.Stop != nil && x.opt.Stop(cm.Origin()) {
+			return nil, nil
+		}
+		for _, on := range x.stack {
+			if on == cm.Origin() {
+				return nil, nil
+			}
+		}
+		impls = append(impls, impl)
+	}
+	if len(impls) == 0 || len(impls) > 4 {
+		return nil, nil
+	}
+	return sel.X, impls
+}
+
+// devirt rewrites a statement whose call goes through such an interface into a chain of type tests with one copy
+// of the statement per implementing type, the call in each copy made on the asserted concrete value:
+//
+//	if _, is := v.(T0); is { S[v.(T0).m(…)] } else { S[v.(T1).m(…)] }
+//
+// The copies are then expanded like any call of a concrete method. (A nil interface value panics in the original
+// and in the last arm alike.)
+func (x *expander) devirt(s ast.Stmt, depth int) []ast.Stmt {
+	var slot *ast.Expr
+	switch t := s.(type) {
+	case *ast.ExprStmt:
+		slot = &t.X
+	case *ast.AssignStmt:
+		if len(t.Rhs) == 1 && (t.Tok == token.ASSIGN || t.Tok == token.DEFINE) {
+			slot = &t.Rhs[0]
+		}
+	case *ast.ReturnStmt:
+		if len(t.Results) == 1 {
+			slot = &t.Results[0]
+		}
+	}
+	if slot == nil {
+		return nil
+	}
+	call, ok := ast.Unparen(*slot).(*ast.CallExpr)
+	if !ok {
+		return nil
+	}
+	recv, impls := x.closedIface(call, depth)
+	if len(impls) == 0 {
+		return nil
+	}
+	sel := ast.Unparen(call.Fun).(*ast.SelectorExpr)
+	m := x.info.Uses[sel.Sel].(*types.Func)
+	at := s.Pos()
+	x.rewrote = true
+	var arms []ast.Stmt
+	for _, impl := range impls {
+		// a copy of the statement sharing all its variables
+		cl := &cloner{p: x.p, info: x.info, off: x.p.shiftFile(at), objs: map[types.Object]types.Object{}, local: func(types.Object) bool { return false }}
+		cp := cl.node(s).(ast.Stmt)
+		var cslot *ast.Expr
+		switch t := cp.(type) {
+		case *ast.ExprStmt:
+			cslot = &t.X
+		case *ast.AssignStmt:
+			cslot = &t.Rhs[0]
+		case *ast.ReturnStmt:
+			cslot = &t.Results[0]
+		}
+		ccall := ast.Unparen(*cslot).(*ast.CallExpr)
+		csel := ast.Unparen(ccall.Fun).(*ast.SelectorExpr)
+		typeID := &ast.Ident{NamePos: csel.X.Pos(), Name: types.TypeString(impl, func(*types.Package) string { return "" })}
+		x.info.Types[typeID] = types.TypeAndValue{Type: impl}
+		ta := &ast.TypeAssertExpr{X: csel.X, Lparen: csel.X.End(), Type: typeID, Rparen: csel.X.End()}
+		x.info.Types[ta] = types.TypeAndValue{Type: impl}
+		ms := types.NewMethodSet(impl).Lookup(m.Pkg(), m.Name())
+		nsel := &ast.SelectorExpr{X: ta, Sel: &ast.Ident{NamePos: csel.Sel.Pos(), Name: csel.Sel.Name}}
+		x.info.Uses[nsel.Sel] = ms.Obj()
+		x.info.Selections[nsel] = ms
+		x.info.Types[nsel] = types.TypeAndValue{Type: ms.Type()}
+		ccall.Fun = nsel
+		arms = append(arms, cp)
+	}
+	_ = recv
+	// the chain of tests, last implementation in the final else
+	var chain ast.Stmt = &ast.BlockStmt{Lbrace: at, List: []ast.Stmt{arms[len(arms)-1]}, Rbrace: s.End()}
+	for i := len(arms) - 2; i >= 0; i-- {
+		x.seq++
+		okv := types.NewVar(at, x.top.Pkg.Types, fmt.Sprintf("inl%d_is", x.seq), types.Typ[types.Bool])
+		def := &ast.Ident{NamePos: at, Name: okv.Name()}
+		x.info.Defs[def] = okv
+		use := &ast.Ident{NamePos: at, Name: okv.Name()}
+		x.info.Uses[use] = okv
+		x.info.Types[use] = types.TypeAndValue{Type: types.Typ[types.Bool]}
+		cl := &cloner{p: x.p, info: x.info, off: x.p.shiftFile(at), objs: map[types.Object]types.Object{}, local: func(types.Object) bool { return false }}
+		rx := cl.node(recv).(ast.Expr)
+		typeID := &ast.Ident{NamePos: at, Name: types.TypeString(impls[i], func(*types.Package) string { return "" })}
+		x.info.Types[typeID] = types.TypeAndValue{Type: impls[i]}
+		ta := &ast.TypeAssertExpr{X: rx, Lparen: at, Type: typeID, Rparen: at}
+		x.info.Types[ta] = types.TypeAndValue{Type: types.NewTuple(types.NewVar(at, nil, "", impls[i]), types.NewVar(at, nil, "", types.Typ[types.Bool]))}
+		blank := &ast.Ident{NamePos: at, Name: "_"}
+		init := &ast.AssignStmt{Lhs: []ast.Expr{blank, def}, TokPos: at, Tok: token.DEFINE, Rhs: []ast.Expr{ta}}
+		var els ast.Stmt = chain
+		chain = &ast.IfStmt{If: at, Init: init, Cond: use, Body: &ast.BlockStmt{Lbrace: at, List: []ast.Stmt{arms[i]}, Rbrace: s.End()}, Else: els}
+	}
+	return []ast.Stmt{chain}
+}
+
+// accessors replaces, inside the expressions of statement s itself (not of the statements nested in it), every call
+// of an expandable function whose body is a single `return E` with E free of effects by a copy of E — the receiver
+// and the parameters replaced by the operands. Such a call can stand anywhere an expression can (the base of a
+// selector, a range operand, an index), where statement-level expansion does not reach: `b.data().puts[k]` with
+// `func (b memBucket) data() memData { return b.db.data[b.name] }` reads as `b.db.data[b.name].puts[k]`.
+func (x *expander) accessors(s ast.Stmt, depth int) {
+	for round := 0; round < 4; round++ {
+		changed := false
+		ast.Inspect(s, func(n ast.Node) bool {
+			if n == nil {
+				return false
+			}
+			switch n.(type) {
+			case *ast.BlockStmt:
+				return n == ast.Node(s)
+			case *ast.FuncLit, *ast.CaseClause, *ast.CommClause:
+				return false
+			}
+			v := reflect.ValueOf(n)
+			if v.Kind() != reflect.Ptr || v.IsNil() || v.Elem().Kind() != reflect.Struct {
+				return true
+			}
+			st := v.Elem()
+			try := func(slot reflect.Value) {
+				if slot.IsNil() {
+					return
+				}
+				e, ok := slot.Interface().(ast.Expr)
+				if !ok {
+					return
+				}
+				call, ok := ast.Unparen(e).(*ast.CallExpr)
+				if !ok {
+					return
+				}
+				if repl := x.accessorValue(call, depth); repl != nil && slot.CanSet() {
+					slot.Set(reflect.ValueOf(repl))
+					changed = true
+				}
+			}
+			for i := 0; i < st.NumField(); i++ {
+				f := st.Field(i)
+				switch {
+				case f.Kind() == reflect.Interface && f.Type() == exprIface:
+					try(f)
+				case f.Kind() == reflect.Slice && f.Type().Elem() == exprIface:
+					for j := 0; j < f.Len(); j++ {
+						try(f.Index(j))
+					}
+				}
+			}
+			return true
+		})
+		if !changed {
+			return
+		}
+		x.rewrote = true
+	}
+}
+
+// accessorValue returns the copy of the callee's returned expression that stands for call, or nil.
+func (x *expander) accessorValue(call *ast.CallExpr, depth int) ast.Expr {
+	c, ok := x.target(call, depth)
+	if !ok || c.fn == nil || c.lit != nil || c.fn.Decl == nil || c.obj == nil {
+		return nil
+	}
+	fn := c.fn
+	if len(fn.Decl.Body.List) != 1 || fn.Decl.Type.TypeParams != nil {
+		return nil
+	}
+	rs, ok := fn.Decl.Body.List[0].(*ast.ReturnStmt)
+	if !ok || len(rs.Results) != 1 || !isPure(fn.Info(), rs.Results[0]) {
+		return nil
+	}
+	hasLit := false
+	ast.Inspect(rs.Results[0], func(n ast.Node) bool {
+		if _, ok := n.(*ast.FuncLit); ok {
+			hasLit = true
+		}
+		return !hasLit
+	})
+	if hasLit {
+		return nil
+	}
+	uses := map[types.Object]int{}
+	ast.Inspect(rs.Results[0], func(n ast.Node) bool {
+		if id, ok := n.(*ast.Ident); ok {
+			if o := fn.Info().Uses[id]; o != nil {
+				uses[o]++
+			}
+		}
+		return true
+	})
+	subst := map[types.Object]ast.Expr{}
+	bind := func(nm *ast.Ident, arg ast.Expr) bool {
+		if nm == nil || nm.Name == "_" {
+			return !containsCall(arg)
+		}
+		pobj := fn.Info().Defs[nm]
+		if pobj == nil {
+			return false
+		}
+		if at := x.info.TypeOf(arg); at == nil || !types.Identical(at, pobj.Type()) {
+			return false // implicit address-of / conversion: leave to the statement-level expansion
+		}
+		if !(x.substitutable(arg) || (isPure(x.info, arg) && uses[pobj] <= 1)) {
+			return false
+		}
+		subst[pobj] = arg
+		return true
+	}
+	if fn.Decl.Recv != nil && len(fn.Decl.Recv.List) == 1 {
+		if c.recv == nil {
+			return nil
+		}
+		var nm *ast.Ident
+		if len(fn.Decl.Recv.List[0].Names) == 1 {
+			nm = fn.Decl.Recv.List[0].Names[0]
+		}
+		if !bind(nm, c.recv) {
+			return nil
+		}
+	}
+	i := 0
+	for _, fld := range fn.Decl.Type.Params.List {
+		if len(fld.Names) == 0 {
+			if i >= len(call.Args) || containsCall(call.Args[i]) {
+				return nil
+			}
+			i++
+			continue
+		}
+		for _, nm := range fld.Names {
+			if i >= len(call.Args) || !bind(nm, call.Args[i]) {
+				return nil
+			}
+			i++
+		}
+	}
+	if i != len(call.Args) {
+		return nil
+	}
+	cl := &cloner{p: x.p, info: x.info, off: x.p.shiftFile(rs.Pos()), objs: map[types.Object]types.Object{}, subst: subst,
+		local: func(types.Object) bool { return false }}
+	out := cl.node(rs.Results[0]).(ast.Expr)
+	par := &ast.ParenExpr{Lparen: out.Pos(), X: out, Rparen: out.End()}
+	if tv, ok := x.info.Types[out]; ok {
+		x.info.Types[par] = tv
+	} else if t := x.info.TypeOf(call); t != nil {
+		x.info.Types[par] = types.TypeAndValue{Type: t}
+		x.info.Types[out] = types.TypeAndValue{Type: t}
+	}
+	if x.inlinedCalls == nil {
+		x.inlinedCalls = map[ast.Node]bool{}
+	}
+	x.inlinedCalls[x.p.OrigNode(call)] = true
+	x.inlined = append(x.inlined, c.obj)
+	return par
 }
